@@ -49,7 +49,7 @@ CONFIGS = {
                                            '--objc']),
     'obj_c_types': ('obj_c_types', ['-r', 'client.{ns}.{route}']),
     'obj_c_client': ('obj_c_client', ['-m', 'ApiClient', '-c', 'ApiClientBase', '-t', 'TransportClient',
-                                      '-y', OBJC_CLIENT_ARGS, '-z', OBJC_STYLE]),
+                                      '-y', OBJC_CLIENT_ARGS, '-z', OBJC_STYLE, '-w', 'user']),
 }
 ORDER = list(CONFIGS)
 
